@@ -68,6 +68,7 @@ def fill(n):
             p.setdefault("disabled", False)
             for r in RULES:
                 p.setdefault(r, [])
+            p.setdefault("display", "none")
             fill(p["type"])
     elif k == "scope":
         for o in n["objects"]:
@@ -129,7 +130,7 @@ def focus(a, b, with_path=False):
                 return None
             seen.add(key)
             flags = lambda p: (p["name"], p["required"], p.get("has_default", False), p.get("disabled", False),
-                               [sorted(p.get(r, [])) for r in RULES])
+                               [sorted(p.get(r, [])) for r in RULES], p.get("display", "none"))
             hx = (ox["id"], ox["id_unenforced"], ox.get("impl", "plain"), [flags(p) for p in ox["props"]])
             hy = (oy["id"], oy["id_unenforced"], oy.get("impl", "plain"), [flags(p) for p in oy["props"]])
             if hx != hy:
@@ -254,6 +255,8 @@ def features(n, out=None):
                 out.add("default")
             if any(p.get(r) for r in RULES):
                 out.add("field_rules")
+            if p.get("display", "none") != "none":
+                out.add("display")
             features(p["type"], out)
     elif k == "scope":
         for o in n["objects"]:
@@ -392,6 +395,10 @@ def consume(ctx, cases, results, stats, retry=False):
             raise common.Infra("harness failure on %s: %s" % (json.dumps(case)[:300], r))
         if r.get("bind_error"):
             raise common.Infra("binding table out of date: " + r["bind_error"])
+        if r.get("display_dep"):
+            stats["display_dependent"] = stats.get("display_dependent", 0) + 1
+            ctx.note_drift("the verdict depends on the display (documentation) of a property - not fixed by the "
+                           "statement, reported as drift", json.dumps(dict(case=case, observed=r["display_dep"]))[:600])
         if r.get("skip"):
             stats["not_describable"] = stats.get("not_describable", 0) + 1
             if "panic" in r["skip"]:
@@ -538,6 +545,10 @@ def run(ctx):
         "rules between fields (conflicts, required_if, required_if_not) concern the fields of a VALUE (data mode); "
         "schema comparison never consults them (the model's reasons are invariant under clearing them) - an object "
         "whose properties conflict is compatible with itself and its rebuilt copy; data-mode verdicts are not judged",
+        "property displays (none / name only / description only / icon only / all) are documentation: no reason "
+        "to reject depends on them (model invariant), every shape has to get a verdict - a panic is a violation -, "
+        "a verdict that changes when the displays are cleared is reported as drift; unnamed enum values have no "
+        "display or a description-only display",
         "a one-of with another discriminator NAME is rejected whether or not either side inlines it and whatever "
         "its members declare",
         "typed lists and maps are instantiated over scalar element types (int, float, string, bool; int or "
